@@ -83,6 +83,7 @@ type walkInfo struct {
 func walkSkiplist(s *skiplist.Skiplist, cmp skiplist.CompareFn) (wi walkInfo, problem string) {
 	head, tail := skiplist.VerifHead(s), skiplist.VerifTail(s)
 	const stepBound = 100000
+	listLevel := skiplist.VerifLevel(s)
 	var below map[*skiplist.Node]bool
 	perLevel := make([]map[*skiplist.Node]bool, skiplist.MaxLevel+1)
 	for l := 0; l <= skiplist.MaxLevel; l++ {
@@ -103,6 +104,9 @@ func walkSkiplist(s *skiplist.Skiplist, cmp skiplist.CompareFn) (wi walkInfo, pr
 			}
 			if l > skiplist.VerifNodeLevel(x) {
 				return wi, fmt.Sprintf("level %d: node of height %d is linked above its height", l, skiplist.VerifNodeLevel(x))
+			}
+			if l > listLevel {
+				return wi, fmt.Sprintf("a node is linked at level %d but the list's level is %d: that level is not a level of the skiplist (searches never visit or maintain it)", l, listLevel)
 			}
 			nx, marked := skiplist.VerifNextRaw(x, l)
 			if l == 0 {
